@@ -11,11 +11,9 @@
 verif_ev_t verif_ev[VERIF_NEV]; int verif_nev; int verif_fd_open; int verif_fail_mode;
 const char *verif_msg; size_t verif_msg_len; size_t verif_msg_idx; int verif_content_ok;
 size_t verif_stdio_cap; size_t verif_pending_stdout;
-typedef struct { int in_use, std, fd, append, failed, nonblock; size_t pending, cap; } vstream_t;
-#define NS 5
-static vstream_t vs[NS];
-static int verif_sock_fd, verif_sock_nonblock, verif_sock_open, verif_nsend;
-static const void *verif_sigact_saved;
+vstream_t vs[NS];              /* (named verif_vs through a macro: not static, so that a contract's assigns clause can list it) */
+int verif_sock_fd, verif_sock_nonblock, verif_sock_open, verif_nsend;
+const void *verif_sigact_saved;
 
 static void ev(int kind, int fd, const void *p, size_t len, int flags, int ok){
   __CPROVER_assert(verif_nev < VERIF_NEV, "effect trace: fewer than 12 effects per call");
